@@ -20,95 +20,101 @@ def getResolution (index : Nat) : Int :=
   getResLoop (MAXR.toNat + 1) (MAXR - 1) (index >>> 1)
 
 /-- `deserialize(index)` -/
-def deserialize (index : Nat) : PyM Cell := do
+def deserialize (index : Nat) : PyM Cell :=
   let res := getResolution index
-  if res = -1 then
+  if res = -1 then do
     let o ← originAt 0
     return { origin := o, segment := 0, S := 0, res := res }
-  let top6 := index >>> 58
-  let (origin, segment) ←
-    (if res = 0 then do
-        let o ← originAt top6
-        pure (o, (0 : Int))
-      else do
-        let o ← originAt (top6 / 5)
-        pure (o, ((top6 : Int) + firstQuintant o) % 5) : PyM (Nat × Int))
-  if res < FHR then
-    return { origin := origin, segment := segment, S := 0, res := res }
-  let hilbertLevels := res - FHR + 1
-  let hilbertBits := 2 * hilbertLevels
-  let shift := HSB - hilbertBits
-  let s ← shr (index &&& REMOVAL_MASK) shift
-  return { origin := origin, segment := segment, S := (s : Int), res := res }
+  else do
+    let top6 := index >>> 58
+    let (origin, segment) ←
+      (if res = 0 then do
+          let o ← originAt top6
+          pure (o, (0 : Int))
+        else do
+          let o ← originAt (top6 / 5)
+          pure (o, ((top6 : Int) + firstQuintant o) % 5) : PyM (Nat × Int))
+    if res < FHR then
+      return { origin := origin, segment := segment, S := 0, res := res }
+    else do
+      let hilbertLevels := res - FHR + 1
+      let hilbertBits := 2 * hilbertLevels
+      let shift := HSB - hilbertBits
+      let s ← shr (index &&& REMOVAL_MASK) shift
+      return { origin := origin, segment := segment, S := (s : Int), res := res }
 
-/-- `serialize(cell)` (with the repaired bounds checks on `S`) -/
-def serialize (c : Cell) : PyM Nat := do
-  if c.res > MAXR then throw .value
-  if c.res = -1 then return WORLD_CELL
-  if c.S < 0 then throw .value
-  if c.res < FHR ∧ c.S ≠ 0 then throw .value
-  let R : Int := if c.res < FHR then c.res + 1 else 2 * (1 + c.res - FHR) + 1
-  let segN : Int := (c.segment - firstQuintant c.origin + 5) % 5
-  let index0 ← (if c.res = 0 then shl c.origin 58 else shl (5 * c.origin + segN.toNat) 58)
-  let index1 ←
-    (if c.res ≥ FHR then do
-        let hilbertLevels := c.res - FHR + 1
-        let hilbertBits := 2 * hilbertLevels
-        let lim ← shl 1 hilbertBits
-        if c.S ≥ (lim : Int) then throw .value
-        let add ← shl c.S.toNat (HSB - hilbertBits)
-        pure (index0 + add)
-      else pure index0 : PyM Nat)
-  let marker ← shl 1 (HSB - R)
-  return index1 ||| marker
+/-- `serialize(cell)` (with the repaired bounds checks on `S`).
+    Early exits are written as an `if … else if …` chain so that the term stays linear in size. -/
+def serialize (c : Cell) : PyM Nat :=
+  if c.res > MAXR then .error .value
+  else if c.res = -1 then .ok WORLD_CELL
+  else if c.S < 0 then .error .value
+  else if c.res < FHR ∧ c.S ≠ 0 then .error .value
+  else
+    let R : Int := if c.res < FHR then c.res + 1 else 2 * (1 + c.res - FHR) + 1
+    let segN : Int := (c.segment - firstQuintant c.origin + 5) % 5
+    do
+      let index0 ← (if c.res = 0 then shl c.origin 58 else shl (5 * c.origin + segN.toNat) 58)
+      let index1 ←
+        (if c.res ≥ FHR then
+            let hilbertLevels := c.res - FHR + 1
+            let hilbertBits := 2 * hilbertLevels
+            (shl 1 hilbertBits).bind fun lim =>
+              if c.S ≥ (lim : Int) then .error .value
+              else (shl c.S.toNat (HSB - hilbertBits)).bind fun add => .ok (index0 + add)
+          else .ok index0 : PyM Nat)
+      let marker ← shl 1 (HSB - R)
+      return index1 ||| marker
 
 /-- the (origin, segment, i) triples of `cell_to_children`'s three nested loops, in loop order -/
 def childTriples (os : List Nat) (segs : List Int) (cnt : Nat) : List (Nat × Int × Nat) :=
   os.flatMap fun o => segs.flatMap fun s => (List.range cnt).map fun i => (o, s, i)
 
 /-- `cell_to_children(index, child_resolution)`; `none` = argument omitted / `None` -/
-def cellToChildren (index : Nat) (childRes : Option Int) : PyM (List Nat) := do
-  let cell ← deserialize index
+def cellToChildren (index : Nat) (childRes : Option Int) : PyM (List Nat) :=
+  (deserialize index).bind fun cell =>
   let cur := cell.res
   let new := childRes.getD (cur + 1)
-  if new < cur then throw .value
-  if new > MAXR then throw .value
-  if new = cur then return [index]
-  let newOrigins : List Nat := if cur = -1 then Tables.ORIGIN_IDS else [cell.origin]
-  let newSegments : List Int :=
-    if (cur = -1 ∧ new > 0) ∨ cur = 0 then [0, 1, 2, 3, 4] else [cell.segment]
-  let diff := new - max cur (FHR - 1)
-  let cnt : Nat := 4 ^ (max 0 diff).toNat
-  let shiftedS : Int := cell.S * 2 ^ (2 * max 0 diff).toNat
-  (childTriples newOrigins newSegments cnt).mapM fun (o, s, i) =>
-    serialize { origin := o, segment := s, S := shiftedS + (i : Int), res := new }
+  if new < cur then .error .value
+  else if new > MAXR then .error .value
+  else if new = cur then .ok [index]
+  else
+    let newOrigins : List Nat := if cur = -1 then Tables.ORIGIN_IDS else [cell.origin]
+    let newSegments : List Int :=
+      if (cur = -1 ∧ new > 0) ∨ cur = 0 then [0, 1, 2, 3, 4] else [cell.segment]
+    let diff := new - max cur (FHR - 1)
+    let cnt : Nat := 4 ^ (max 0 diff).toNat
+    let shiftedS : Int := cell.S * 2 ^ (2 * max 0 diff).toNat
+    (childTriples newOrigins newSegments cnt).mapM fun (o, s, i) =>
+      serialize { origin := o, segment := s, S := shiftedS + (i : Int), res := new }
 
 /-- `cell_to_parent(index, parent_resolution)` -/
-def cellToParent (index : Nat) (parentRes : Option Int) : PyM Nat := do
-  let cell ← deserialize index
+def cellToParent (index : Nat) (parentRes : Option Int) : PyM Nat :=
+  (deserialize index).bind fun cell =>
   let cur := cell.res
   let new := parentRes.getD (cur - 1)
-  if new = -1 then return WORLD_CELL
-  if new < -1 then throw .value
-  if new > cur then throw .value
-  if new = cur then return index
-  let diff := cur - new
-  let shiftedS : Int := cell.S / 2 ^ (2 * diff).toNat
-  serialize { origin := cell.origin, segment := cell.segment, S := shiftedS, res := new }
+  if new = -1 then .ok WORLD_CELL
+  else if new < -1 then .error .value
+  else if new > cur then .error .value
+  else if new = cur then .ok index
+  else
+    let diff := cur - new
+    let shiftedS : Int := cell.S / 2 ^ (2 * diff).toNat
+    serialize { origin := cell.origin, segment := cell.segment, S := shiftedS, res := new }
 
 /-- `get_res0_cells()` -/
 def getRes0Cells : PyM (List Nat) := cellToChildren WORLD_CELL (some 0)
 
 /-- `is_first_child(index, resolution)` -/
-def isFirstChild (index : Nat) (res : Option Int) : PyM Bool := do
+def isFirstChild (index : Nat) (res : Option Int) : PyM Bool :=
   let r := res.getD (getResolution index)
   if r < 2 then
-    let top6 ← shr index HSB
-    let childCount : Nat := if r = 0 then 12 else 5
-    return top6 % childCount == 0
-  let sPos := 2 * (MAXR - r)
-  let mask ← shl 3 sPos
-  return index &&& mask == 0
+    (shr index HSB).bind fun top6 =>
+      let childCount : Nat := if r = 0 then 12 else 5
+      .ok (top6 % childCount == 0)
+  else
+    let sPos := 2 * (MAXR - r)
+    (shl 3 sPos).bind fun mask => .ok (index &&& mask == 0)
 
 /-- `get_stride(resolution)` -/
 def getStride (r : Int) : PyM Nat :=
